@@ -488,6 +488,20 @@ func c04Run(t *testing.T, c *choice.Stream, r *Result, opt RunOpt, forced *c04Fo
 			}
 			script = ns
 		}
+		// An INSERT refused right after the schema exchange by a server that then no
+		// longer reads what the client keeps sending (it has nothing to do with it):
+		// the sender ends up blocked in Write with the exception already delivered.
+		excStuckAfter := -1
+		if sc.kind == "insert" && faultName == "exception" && forced == nil && c.Bool("exc.stuck", 1, 4) {
+			for i := qStart; i < len(script); i++ {
+				if script[i].Label == "data" && len(script[i].Send) > 0 {
+					ns := append([]simnet.Step{}, script[:i+1]...)
+					script = append(ns, simnet.Step{Label: "exception", Send: (&SPacket{Kind: "exception", Exc: DrawExceptionChain(c)}).Encode(cf)})
+					excStuckAfter = c.Draw("exc.stuck.after", 300)
+					break
+				}
+			}
+		}
 		// where a server exception ends in the response stream, if there is one:
 		// only a client that has been given that whole packet may stay open
 		excEnd := -1
@@ -525,6 +539,20 @@ func c04Run(t *testing.T, c *choice.Stream, r *Result, opt RunOpt, forced *c04Fo
 			if err != nil {
 				r.Harness("fault-free handshake failed: %v (server parse error: %v)", err, srv.Parser.Err)
 				return
+			}
+			if excStuckAfter >= 0 {
+				if conn.Window == 0 {
+					conn.Window = 64
+				}
+				// from the instant the exception is out, the server reads only a little more
+				armed := false
+				e.Sim.AddEnv(&sched.EnvFunc{N: "server-stops-reading", E: func() bool {
+					return !armed && srv.ScriptPos() >= len(srv.Script)
+				}, R: func() {
+					armed = true
+					conn.StopReadAt = conn.PeerViewLen() + excStuckAfter
+					r.Fire("exception_then_server_stops_reading")
+				}})
 			}
 			switch faultName {
 			case "cut_fin", "cut_rst":
@@ -590,6 +618,9 @@ func c04Run(t *testing.T, c *choice.Stream, r *Result, opt RunOpt, forced *c04Fo
 			excWhole := true
 			if faultName == "cut_fin" || faultName == "cut_rst" {
 				excWhole = excEnd >= 0 && cutK >= excEnd
+			}
+			if excStuckAfter >= 0 {
+				conn.StopReadAt = -1 // the server comes back to life for the usability probe
 			}
 			if ctxDeadline > 0 && probeLate {
 				// the next request comes when the failed query's deadline is long past
